@@ -220,7 +220,7 @@ theorem parseFv_alter_beyond {h : Hooks} {fuel : Nat} {data data' : Bytes} {off 
       have e55 : rd data' 55 1 = rd data 55 1 := ha.rd_eq (by omega)
       unfold fvInfoOf
       simp only [e16, e32, e40, e44, e48, e50, e52, e54, e55]
-      by_cases hx : rd data 52 2 ≠ 0 ∧ rd data 32 8 ≥ 20 ∧ rd data 52 2 < rd data 32 8 - 20
+      by_cases hx : rd data 52 2 ≠ 0 ∧ rd data 32 8 ≥ 20 ∧ rd data 52 2 ≤ rd data 32 8 - 20
       · have e1 : rd data' (rd data 52 2 + 16) 4 = rd data (rd data 52 2 + 16) 4 := ha.rd_eq (by omega)
         have e2 : slice data' (rd data 52 2) 16 = slice data (rd data 52 2) 16 := ha.slice_eq (by omega)
         simp only [e1, e2]
